@@ -406,6 +406,16 @@ func SetSlice(dest reflect.Value, objects interface{}) error {
 
 	v := EnsurePackValue(objects)
 	if h, ok := v.Interface().(*_refHolder); ok {
+		if h.completed {
+			// a reference to a list that has already been read completely
+			// (the same slice in two fields): nobody will notify it any more
+			cv, err := ConvertSliceValueType(destTyp, h.value)
+			if err != nil {
+				return err
+			}
+			SetValue(dest, cv)
+			return nil
+		}
 		h.add(dest)
 		return nil
 	}
